@@ -321,6 +321,9 @@ def _stmts(body, depth, lits, out):
                     else:
                         kws.append(k.arg)
                 out.append(f"L{depth} call {','.join(outs)} = {callee}({','.join(args)}|{','.join(kws)})")
+            elif isinstance(v, ast.UnaryOp) and isinstance(v.op, ast.USub) and not isinstance(v.operand, ast.BinOp):
+                # `x = -2.5`: a negative inlined constant on the right-hand side of an SSA-undoing assignment
+                out.append(f"L{depth} assign {outs[0]} = {_arg(v, lits)}")
             elif isinstance(v, (ast.BinOp, ast.Compare, ast.UnaryOp)):
                 sym, args = _flatten_bin(v, lits)
                 out.append(f"L{depth} op {outs[0]} = {(' ' + sym + ' ').join(args)}")
